@@ -22,6 +22,8 @@ class EpsilonSelector:
         self.growth_factor = 1.4  # growth factor for self.chk_int
 
     def add_probability(self, p: float):
+        # (a plain float: see Parameter.submit_accept_prob)
+        p = float(p)
         self.num += 1
         self.avg += p
         self.var += max(p * (1 - p), 0.03)
